@@ -13,6 +13,7 @@ import Drv.Student
 import Drv.Chi2
 import Drv.Table
 import Drv.T4Scan
+import Drv.T4Spec
 open Lean
 
 def dispatch (model : String) (j : Json) : Except String Json :=
@@ -25,6 +26,7 @@ def dispatch (model : String) (j : Json) : Except String Json :=
   | "chi2" => Drv.Chi2.run j
   | "table" => Drv.Table.run j
   | "t4scan" => Drv.T4Scan.run j
+  | "t4spec" => Drv.T4Spec.run j
   | "bonf" => Drv.Bonf.run j
   | "depgraph" => Drv.DepGraph.run j
   | "envp" => Drv.EnvP.run j
